@@ -310,14 +310,16 @@ def r13d(ctx: Context) -> None:
     init = prog.method(MAIN, "__initialize_subsystems")
     reset = prog.method("pymarkdown.return_code_helper.ReturnCodeHelper", "reset")
     first_call = None
+    from sa.rules.c11 import _is_logging
+
     for stmt in init.node.body:
-        calls = [c for c in ast.walk(stmt) if isinstance(c, ast.Call)]
+        calls = [c for c in ast.walk(stmt) if isinstance(c, ast.Call) and not _is_logging(prog, init, c)]
         if calls:
             first_call = site_for(prog, init, calls[0])
             break
     key = f"{init.short}: ReturnCodeHelper.reset"
     if first_call is not None and reset in first_call.targets:
-        rule.ok(key, "first statement of subsystem initialisation")
+        rule.ok(key, "first non-logging call of subsystem initialisation")
     else:
         rule.fail(key, where(init), "the return-code scheme chosen by a previous main() in this process is not reset before arguments are parsed")
     sites = [s for s in prog.sites_in(main) if init in s.targets]
